@@ -131,6 +131,12 @@ def contracts_for_schema(cs, tier):
         pre = [OBJ(vp, rec)] + vw.wf() + [ASSUME("%d <= sbv_n" % need)]
         out.append(Contract(f, "%s:%s::set*" % (cs.name, li.ident), props={"C01", "C10"}, ghosts=GH_N, mode="N", pre=pre, post=post, assigns=frame,
                             note="setters of level %s write exactly the member bytes; handler unreachable when the block fits" % li.ident))
+        if li.ident in getattr(g, "set_bytag_roots", []) and len(sm) == len([1 for i_, m_ in sm if m_["mkind"] == "field"]):
+            fb = u.root("r_%s_set_bytag" % li.ident)
+            vpb, xsb = fb.p[0], fb.p[1]
+            ren = lambda e_: e_.replace("(*%s)" % vp, "(*%s)" % vpb).replace("%s.v" % xs, "%s.v" % xsb)
+            out.append(Contract(fb, "%s:%s::set_by_tag*" % (cs.name, li.ident), props={"C19", "C01"}, ghosts=GH_N, mode="N", pre=[OBJ(vpb, rec)] + V(u, "(*%s)" % vpb, rec).wf() + [ASSUME("%d <= sbv_n" % need)],
+                                post=[(n_, ren(e_)) for n_, e_ in post], assigns=[ren(x_) for x_ in frame], note="set_by_tag of every field of level %s: the named setters' contract" % li.ident))
     return out
 
 
